@@ -7,6 +7,8 @@ CONFIG = {
             "{item, raise StopIteration, raise StopIteration(), StopIteration(v)/return v, raise KeyError}, adapters enumerate/map/filter/zip under 7 outer consumers, plus VERIF_SEED-derived scripts up to length 8 with 7 exception classes; "
             "generator cases: all next/send sequences of length <=4 (quick) / <=5 (thorough) over a 9-operation alphabet and all next/send/throw/close sequences of length <=3 / <=4 over an 11-operation alphabet on 4 sets of 3 live generators (loops with locals, try/finally, early return, raise, yield from, a handler that re-raises after a yield) plus seeded histories up to 12 operations; "
             "body cases: the family {break, continue, return, raise, fall-through, yield} crossing a finally clause that yields (with/without a loop, nested, under a handler, loops inside the finally clause, handlers for the thrown exception and for GeneratorExit; 61 bodies) x all next/send/throw/close histories of length <=4, and EVERY valid body of nesting depth <=1 over 7 atoms x all histories of length <=3 (148 distinct bodies in the quick tier; thorough: histories <=4 and one more nesting level, 627 distinct bodies); each body case is run three ways: compiled body on the RunFrame model, reference coroutine, real compiler+VM; "
+            "return-value cases (round 3): generator templates {yield 1; return v / the same inside try-finally / return v before any yield / bare return / falling off the end / return inside for+try-finally+try-except / return from an except handler reached by throw()} under 0..3 delegating generators (r = yield from x; return r) x readers {value of yield from (next-driven, send-driven, throw-driven) with identity test, StopIteration.args, StopIteration.value, next(g, default)} x 33 return values (None, ints, strs, (), 1-/2-/3-tuples, nested tuples, tuples holding None / exception instances / classes, lists, dicts, exception instances incl. StopIteration instances with 0/1/tuple args, GeneratorExit instance, exception classes, a non-exception class, a generator object) plus VERIF_SEED-derived nested values; the same generators (depth 0..1) under each of the 40 consumers; "
+            "throw cases: generator.throw(type[, value]) over 14 first arguments (classes, instances, non-exceptions) x 15 values (absent, None, scalars, tuples, instances of sub-/unrelated classes, a class, a list) seen inside the generator (class, args, identity with type/value), propagating out of it, and thrown into a never-started generator, plus seeded pairs; "
             "non-trivial = the script contains a stop or raise step (iterator cases) / the history has >= 2 operations (generator and body cases); distinct = distinct input lines",
     "trusted_base": [
         "Lean 4.33.0 kernel; axioms allowed: propext, Classical.choice, Quot.sound (audited per theorem on every run)",
@@ -15,11 +17,13 @@ CONFIG = {
         "lean/GPy/C05/Model.lean: hand transliteration of py.Iterate, SequenceTuple/List/Set, List.ExtendSequence, SequenceContains, String.Join, do_FOR_ITER, unpack_iterable, Vm.Call star-args, builtin all/any/sum/min_max (key=, default=)/sorted/next, Zip/Map/Filter/EnumerateIterator.M__next__, Iterator.M__next__, Generator.resume/Send/Throw/Close/M__next__, do_YIELD_FROM; "
         "lean/GPy/C05/Frame.lean: transliteration of vm.RunFrame (fetch/dispatch, exception on entry through Frame.Throw, the unwinding loop, YIELD_VALUE/RETURN_VALUE/END_FINALLY/POP_EXCEPT/FOR_ITER/SETUP_*/BREAK_LOOP/CONTINUE_LOOP) for the instruction subset generator bodies compile to, with the split between what lives in *py.Frame (survives a suspension) and the per-call Vm fields; "
         "the form of the error test of every py.Next call site and of every call of the helpers built on it (py.Iterate, SequenceList/Tuple/Set, ExtendSequence) is NOT hand-written: it is read from lean/GPy/C05/Generated.lean, regenerated from the Go sources by extract/itersites on every run",
+        "lean/GPy/C05/Ret.lean: value universe (tuples, lists, dicts, exception instances/classes, generator objects, with identities) and Go error values (*Type, *Exception{Base,Args}, ExceptionInfo); transliteration of exceptionNew / IsException / MakeException / Exception.M__getattr__, the tail of Generator.resume after RETURN_VALUE, the (type, value) parsing of Generator.Throw, stopIterationValue, the StopIteration branch of do_YIELD_FROM / throwYieldFrom, RunFrame's conversion of an instruction error to curexc, builtin_next's default; spec = my reading of CPython 3.4 genobject.c gen_send_ex (StopIteration() for None, the instance StopIteration(result) otherwise), StopIteration.__init__, PEP 380, gen_throw + PyErr_NormalizeException; the constructor used at each site of generator.go is read from the regenerated table Generated.excSites",
         "extract/itersites (go/ast classification of the test applied to the error of py.Next / of a derived helper), harness/c05.go, checks/common.py",
     ],
     "assumptions": [
         "per-item operations (truth test, ==, +, <=/>=, sort, key function) are parameters of the theorems (they hold for every behaviour, including raising); the correspondence run instantiates them with ints/strs",
-        "generator.throw(): the parsing of (type, value, traceback) into an exception instance is outside the model (the model starts from the instance); the traceback argument is ignored by gpython",
+        "generator.throw(): the third argument (traceback) is outside the model: gpython ignores it (CPython raises TypeError for a non-traceback)",
+        "return-value model: the generator templates are modelled by what RunFrame hands to Generator.resume at RETURN_VALUE (res = v, or None for a bare return / falling off the end); that the compiled templates do so is tied by the run",
         "that the bytecode of an arbitrary generator body run by RunFrame implements the reference coroutine (compiler + VM correctness for bodies) is tied by the correspondence run over the enumerated bodies, and proved only for the families named in Props.lean",
         "stdlib/array (outside the anchored files) still compares with StopIteration by identity",
     ],
@@ -42,6 +46,8 @@ def pre(run):
     rc, out = common.sh([binp, common.REPO, os.path.join(common.LEAN, "GPy", "C05", "Generated.lean")], timeout=600)
     sites = [l.split()[1:] for l in out.splitlines() if l.startswith("SITE ")]
     derived = [l.split()[1:] for l in out.splitlines() if l.startswith("DERIVED ")]
+    excs = [l.split()[1:] for l in out.splitlines() if l.startswith("EXCSITE ")]
     run.cov["site_table"] = {"sites": len(sites), "rows": [" ".join(s) for s in sites],
                              "derived_sites": len(derived), "derived_rows": [" ".join(s) for s in derived],
-                             "derived_not_forward": [" ".join(s) for s in derived if s[-1] != "forward"]} if rc == 0 else "EXTRACTOR FAILED: " + out[-300:]
+                             "derived_not_forward": [" ".join(s) for s in derived if s[-1] != "forward"],
+                             "exc_sites": len(excs), "exc_rows": [" ".join(s) for s in excs]} if rc == 0 else "EXTRACTOR FAILED: " + out[-300:]
